@@ -303,7 +303,7 @@ def work_binary(bins, seed, n):
 
 def run(ctx):
     quick = ctx.tier == "quick"
-    per = 110 if quick else 4500
+    per = 600 if quick else 6000
     jobs = [(ctx.bins, "%s/%d/%d" % (ctx.prop, ctx.seed, i), per, TZS[i % len(TZS)]) for i in range(32)]
     merged = {}
     for r in core.pmap(work, jobs):
